@@ -12,6 +12,7 @@ From TP Require Import Model.Prelude Extracted Model.Toxics Model.Timed Model.Re
 Theorem C02_control_step : forall l a l',
   link_ok l -> ctl_ok a -> ctl_step l a = Some l' -> link_ok l' /\ stream l' = stream l.
 Proof. exact ctl_preserves. Qed.
+Print Assumptions C02_control_step.
 
 (** hence for every interleaving of any history of such steps with the data path, as long as no
     hand-off is given up (no ASendTimeout, no CForwardDrop: the property's five-second clause):
@@ -21,16 +22,19 @@ Theorem C02_no_corruption : forall sigma l l',
   link_ok l -> Forall mact_ok sigma -> mixed_run l sigma = Some l' ->
   link_ok l' /\ sink_bytes l' ++ flow (l_stubs l') ++ pending l' = stream l.
 Proof. intros sigma l l' H1 H2 H3. destruct (mixed_run_inv sigma l l' H1 H2 H3) as [Ha Hb]. split; [exact Ha|exact Hb]. Qed.
+Print Assumptions C02_no_corruption.
 
 (** an interrupted stage writes back what it holds before it returns (the contract of
     CREATING_TOXICS.md), for every built-in toxic in every wait *)
 Theorem C02_interrupt_holds : forall tx now s,
   wf tx s -> wf tx (on_interrupt now s) /\ held (on_interrupt now s) = held s.
 Proof. exact on_interrupt_contract. Qed.
+Print Assumptions C02_interrupt_holds.
 
 (** the flush timeout of RemoveToxic and of the bandwidth toxic is five seconds (extracted) *)
 Theorem C02_five_seconds : remove_flush_timeout_ns = 5000000000 /\ flush_timeout_ns = 5000000000.
 Proof. split; reflexivity. Qed.
+Print Assumptions C02_five_seconds.
 
 (** regenerated ordering facts the control steps of Model/Reconf.v rest on: a stage that is handing a
     chunk on cannot be interrupted (sends are plain statements, never select arms); the per-connection
@@ -38,6 +42,7 @@ Proof. split; reflexivity. Qed.
 Theorem C02_code_facts :
   toxic_sends_are_plain = true /\ state_created_only_for_new_stubs = true /\ remove_always_splices = true.
 Proof. repeat split; reflexivity. Qed.
+Print Assumptions C02_code_facts.
 
 (** non-vacuity: a latency stage interrupted mid-sleep, its stub removed while two chunks are
     queued, on a concrete link: the control steps are enabled and the stream is intact *)
